@@ -20,6 +20,13 @@ namespace vs {
 struct VThrow {
     const char* what() const noexcept { return "vthrow"; }
 };
+// the other shape user code throws: an exception DERIVED from std::exception that carries its own identity -
+// library code that re-packages with the static type (std::make_exception_ptr(ex) on a `const std::exception&`,
+// seeded C20-6) slices it, and the harness no longer recognises what a future rethrows.  Every harness
+// handler catches `const VThrow&`, which matches both shapes; the throw plan alternates between them.
+struct VThrowStd: std::exception, VThrow {
+    const char* what() const noexcept override { return "vthrow-std"; }
+};
 struct Plan {
     std::vector<long> throw_at;  // indices (0-based, global per case) of user-code invocations that throw
     long calls = 0;
@@ -45,6 +52,7 @@ inline void user_call(long fid)
     S().emit(K_CALL, nullptr, fid);
     if (std::find(plan().throw_at.begin(), plan().throw_at.end(), k) != plan().throw_at.end()) {
         S().emit(K_THROW, nullptr, k);
+        if (k % 2 == 1) throw VThrowStd{};
         throw VThrow{};
     }
 }
